@@ -2,6 +2,7 @@ package runner
 
 import (
 	"context"
+	"fmt"
 	"os"
 	"path/filepath"
 	"strings"
@@ -76,11 +77,16 @@ func runLoaderHistory(ctx context.Context, p *plan.Plan, w *world.World, lg *sut
 	}
 	defer os.RemoveAll(dir)
 	path := filepath.Join(dir, "tacquito."+format)
+	oldMtime := 0 // > 0: the next file written gets a modification time that many hours before 2001
 	apply := func(s sut.Source, via string, text []byte) (config.ServerConfig, error) {
 		var err error
 		if via == "load" {
 			if werr := os.WriteFile(path, text, 0o644); werr != nil {
 				return config.ServerConfig{}, werr
+			}
+			if oldMtime > 0 {
+				t := time.Date(2001, 1, 1, 0, 0, 0, 0, time.UTC).Add(-time.Duration(oldMtime) * time.Hour)
+				os.Chtimes(path, t, t)
 			}
 			err = s.Load(path)
 		} else {
@@ -95,7 +101,20 @@ func runLoaderHistory(ctx context.Context, p *plan.Plan, w *world.World, lg *sut
 			}
 			return config.ServerConfig{}, err
 		}
-		return <-s.Config(), nil
+		select {
+		case v := <-s.Config():
+			return v, nil
+		default:
+		}
+		synctest.Wait()
+		select {
+		case v := <-s.Config():
+			return v, nil
+		default:
+			// the load reported success and published nothing: what was loaded before stays in force
+			w.Rec(world.Ev{Actor: "loader", Kind: "load-published-nothing", S: via})
+			return config.ServerConfig{}, errNothingPublished
+		}
 	}
 	var published []config.ServerConfig
 	var snaps []string
@@ -112,6 +131,11 @@ func runLoaderHistory(ctx context.Context, p *plan.Plan, w *world.World, lg *sut
 		}
 		prev = []byte(p.Scen.RawDocs[st.Doc])
 		r := LoaderStepResult{Step: i, Bytes: len(text)}
+		oldMtime = 0
+		if st.OldMtime {
+			oldMtime = i + 1
+			w.Fault("config-old-mtime")
+		}
 		ov, oerr := apply(src, st.Via, text)
 		fv, ferr := apply(sut.NewSource(format), st.Via, text)
 		if oerr != nil {
@@ -145,6 +169,8 @@ func runLoaderHistory(ctx context.Context, p *plan.Plan, w *world.World, lg *sut
 	}
 	return res
 }
+
+var errNothingPublished = fmt.Errorf("load returned nil and published nothing")
 
 func errs(e error) string {
 	if e == nil {
@@ -188,7 +214,12 @@ func runWatcherHistory(ctx context.Context, p *plan.Plan, w *world.World, lg *su
 		if err := f.Load(path); err != nil {
 			return "", errs(err)
 		}
-		return sut.Canon(<-f.Config()), ""
+		select {
+		case v := <-f.Config():
+			return sut.Canon(v), ""
+		default:
+			return "", "fresh loader published nothing"
+		}
 	}
 	take := func() []string {
 		var out []string
@@ -212,6 +243,11 @@ func runWatcherHistory(ctx context.Context, p *plan.Plan, w *world.World, lg *su
 		if werr := os.WriteFile(target, text, 0o644); werr != nil {
 			w.Rec(world.Ev{Actor: "loader", Kind: "harness-error", S: werr.Error()})
 			return res
+		}
+		if st.OldMtime {
+			t := time.Date(2001, 1, 1, 0, 0, 0, 0, time.UTC).Add(-time.Duration(i+1) * time.Hour)
+			os.Chtimes(target, t, t)
+			w.Fault("config-old-mtime")
 		}
 		r := LoaderStepResult{Step: i, Bytes: len(text)}
 		if !started {
